@@ -25,6 +25,14 @@ class Member:
             self.apply(op)
 
     def apply(self, op):
+        if op[0] == "set_all_parameter_values" and len(op) > 2 and op[2] == "same-array":
+            # a scan loop that re-uses one mutable array: the same object, changed in place, is handed over every time
+            if getattr(self, "_scan_array", None) is None or len(self._scan_array) != len(op[1]):
+                self._scan_array = np.zeros(len(op[1]), dtype=float)
+            self._scan_array[:] = op[1]
+            r = self.fit.set_all_parameter_values(self._scan_array)
+            dsl.apply_ref(self.ref, self.spec, [op[0], list(op[1])])
+            return r
         r = dsl.apply_live(self.fit, self.spec, op)
         dsl.apply_ref(self.ref, self.spec, norm_op(self.spec, op))
         return r
